@@ -37,7 +37,8 @@ DIV_TAIL = {'call in header': ') z;', 'call in nested function in header': '; })
             'function expression } after an inserted semicolon': ');', 'operand after return + inserted semicolon': '; }'}
 # regular expression literals whose first characters look like another token
 REGEX_LITERALS = ['/=/', '/=a/g', '/==/', '/[/]/', '/\\//', '/ x/', '/+/', '/-->/', '/./', '/(/', '/a*/', '/{/']
-LAYOUTS = ['', ' ', '\t', '  ', '\n', '\r\n', '\u2028', ' /*c*/ ', '/*c*/', ' // c\n', '\xa0', ' /*a\nb*/ ', '\x0b\ufeff']
+LAYOUTS = ['', ' ', '\t', '  ', '\n', '\r\n', '\u2028', ' /*c*/ ', '/*c*/', ' // c\n', '\xa0', ' /*a\nb*/ ', '\x0b\ufeff', '\n\n', ' \n \r\n ',
+           '\n// c\n', '/*a*//*b*/']
 
 
 def classify(es5, asttypes, src, lit='/re/'):
